@@ -219,10 +219,18 @@ def execute(case: dict) -> dict:
     classes = {"X": X, "Y": Y}
     for n in ("ArakawaC", "CFGrid1D", "CFGrid2D", "ShocSimple", "ShocStandard", "UGrid"):
         classes[n] = getattr(conventions, n)
+    if case.get("variant", 0) % 2 == 1:
+        # project-local classes that carry the NAME of a built-in convention (another class all the same)
+        X.__name__ = "UGrid"; X.__qualname__ = "UGrid"
+        Y.__name__ = "ShocStandard"; Y.__qualname__ = "ShocStandard"
+    labels = {cls: n for n, cls in classes.items()}
+
+    def label(cls) -> str:
+        return labels.get(cls, cls.__name__)
     saved = _registry.registry
     _registry.registry = _registry.ConventionRegistry()
     try:
-        eps = [c.__name__ for c in _registry.registry.entry_point_conventions]
+        eps = [label(c) for c in _registry.registry.entry_point_conventions]
         objs = [build_dataset(c, case.get("variant", 0)) for c in case["init"]]
         contents = list(case["init"])
         convs: list = []          # convention objects by id (position + 1), in order of first appearance
@@ -250,14 +258,14 @@ def execute(case: dict) -> dict:
                 regs.append(e["cls"])
             elif a == "Detect":
                 k = emsarray.get_dataset_convention(objs[e["obj"] - 1])
-                obs["cls"] = "None" if k is None else k.__name__
+                obs["cls"] = "None" if k is None else label(k)
                 key = (contents[e["obj"] - 1], tuple(regs))
                 obs["prev"] = prev.get(key, "")
                 prev[key] = obs["cls"]
             elif a == "Access":
                 try:
                     c = objs[e["obj"] - 1].ems
-                    obs["conv"] = conv_id(c); obs["cls"] = type(c).__name__
+                    obs["conv"] = conv_id(c); obs["cls"] = label(type(c))
                 except Exception:
                     obs["conv"] = 0; obs["cls"] = "error"
             elif a == "Construct":
@@ -268,7 +276,7 @@ def execute(case: dict) -> dict:
                         c = classes["ArakawaC"](objs[e["obj"] - 1], coordinate_names=names)
                     else:
                         c = classes[e["cls"]](objs[e["obj"] - 1])
-                    obs["conv"] = conv_id(c); obs["cls"] = type(c).__name__
+                    obs["conv"] = conv_id(c); obs["cls"] = label(type(c))
                 except Exception:
                     obs["conv"] = 0; obs["cls"] = "error"
             elif a == "Bind":
